@@ -180,6 +180,21 @@ impl Visitor<Diagnostic> for LibraryRenderer {
         self.visit_integer(&node.value)
     }
 
+    fn visit_integer_literal(&mut self, node: &IntegerLiteral) -> Result<Self::Value, Diagnostic> {
+        let mut val = String::new();
+        if let Some(data_type) = &node.data_type {
+            val.push_str(data_type.as_id().original());
+            val.push('#');
+        }
+        if node.value.is_neg {
+            val.push('-');
+        }
+        val.push_str(node.value.value.value.to_string().as_str());
+
+        self.write_ws(val.as_str());
+        Ok(())
+    }
+
     fn visit_real_literal(&mut self, node: &RealLiteral) -> Result<Self::Value, Diagnostic> {
         let mut val = String::new();
         if let Some(data_type) = &node.data_type {
